@@ -74,6 +74,13 @@ def universes_c08():
         E("d3", "A", 5, 10, [["e", "n1"]]),         # deletion with the target's timestamp
         E("dx", "B", 5, 20, [["e", "nb"], ["e", "nb"]]),   # duplicate reference
     ]
+    # targets at the byte-order edges of the deleter's index walk: one second older than the deletion, ids starting 0xff / 0x00,
+    # an own event with the deletion's own timestamp (need not go), a foreign event in between
+    us["deledge"] = [
+        E("nf", "A", 1, 29, id_prefix="ff"), E("n0", "A", 1, 29, id_prefix="00"), E("nm", "A", 1, 29), E("ne", "A", 1, 30, id_prefix="ff"),
+        E("nb", "B", 1, 29, id_prefix="ff"), E("n1", "A", 1, 1),
+        E("dd", "A", 5, 30, [["e", "nf"], ["e", "n0"], ["e", "nm"], ["e", "ne"], ["e", "nb"], ["e", "n1"]]),
+    ]
     return us
 
 
@@ -306,7 +313,7 @@ def run(prop, tier, seed, backends=BACKENDS, only_universe=None):
     if prop == "C03":
         depth = {"quick": 1, "thorough": 2}[tier]     # every variant on its own (and pairs): the quantifier is over inputs
         depth_of = {"twins": {"quick": 3, "thorough": 4}[tier], "verbatim": 2}
-    cap = {"quick": 1500 if prop == "C06" else 500, "thorough": 20000}[tier]
+    cap = {"quick": 1500 if prop == "C06" else 500, "thorough": 6000}[tier]
     own = prop + "_"
     # phase 1: TLC generates behaviours of Store.tla per (universe, backend, writer mode)
     configs = []
